@@ -239,18 +239,24 @@ def gen_p2p(rng, *, max_spans=4, user_amps=True, fused=True, both=None, max_km=1
     for src, dst in ([('A', 'B'), ('B', 'A')] if both else [('A', 'B')]):
         k = rng.randint(1, max_spans)
         chain = []
+        after_fused = False
         for j in range(k):
-            length = rnd(rng, 160, 420, 3) if long_fibers and rng.random() < 0.3 else None
-            chain.append(gen_fiber(rng, f'fiber ({src} → {dst})-{j}', length=length, max_km=max_km,
+            length = rnd(rng, 160, 420, 3) if long_fibers and rng.random() < 0.3 and not after_fused else None
+            chain.append(gen_fiber(rng, f'fiber ({src} → {dst})-{j}', length=length,
+                                   max_km=min(max_km, 90) if after_fused else max_km,
                                    lumped=lumped and rng.random() < 0.3,
                                    per_freq_loss=per_freq_loss and rng.random() < 0.3))
             if j < k - 1 or rng.random() < 0.5:
                 r = rng.random()
                 if user_amps and r < 0.45:
+                    after_fused = False
                     chain.append(gen_edfa(rng, f'amp ({src} → {dst})-{j}', settings=pick(rng, ['variety', 'none', 'full'])))
-                elif fused and r < 0.6 and j < k - 1:
+                elif fused and r < 0.6 and j < k - 1 and not after_fused and chain[-1]['params']['length'] <= 110:
+                    after_fused = True
                     chain.append({'uid': f'fused ({src} → {dst})-{j}', 'type': 'Fused', 'params': {'loss': pick(rng, [0.5, 1, 2])},
                                   'metadata': _loc(0, 0)})
+                else:
+                    after_fused = False
         for e in chain:
             e.pop('_settings', None)
         els += chain
@@ -303,26 +309,34 @@ def gen_topology(rng, *, n_sites=None, max_sites=5, max_spans=3, whole_km=False,
             k = rng.randint(1, max_spans)
             chain = []
             info = {'fibers': [], 'junctions': []}
+            after_fused = False
             for j in range(k):
                 fuid = f'fiber ({src} → {dst})-{j}'
                 length = None
-                if long_fibers and rng.random() < 0.3:
+                if long_fibers and rng.random() < 0.3 and not after_fused:
                     length = rnd(rng, 160, 420, 3)
-                f = gen_fiber(rng, fuid, length=length, whole_km=whole_km, max_km=max_km, lumped=lumped
+                # fibres spliced by a fused element form one unamplified span: keep it within what a real line has
+                # (two fibres, the second at most 90 km) - several hundred km without amplifier only produce
+                # noise-dominated channels far outside the regime the models claim
+                f = gen_fiber(rng, fuid, length=length, whole_km=whole_km, max_km=min(max_km, 90) if after_fused else max_km,
+                              lumped=lumped
                               and rng.random() < 0.3, per_freq_loss=per_freq_loss and rng.random() < 0.3,
                               dispersion_variants=dispersion_variants, dup_lumped=dup_lumped)
                 chain.append(f)
                 info['fibers'].append(fuid)
                 if j < k - 1:
                     r = rng.random()
-                    if fused and r < 0.2:
+                    if fused and r < 0.2 and not after_fused and f['params']['length'] <= 110:
+                        after_fused = True
                         chain.append({'uid': f'fused ({src} → {dst})-{j}', 'type': 'Fused',
                                       'params': {'loss': pick(rng, [0, 0.5, 1.0, 1])}, 'metadata': _loc(0, 0)})
                         info['junctions'].append('fused')
                     elif user_amps and r < 0.55:
+                        after_fused = False
                         chain.append(gen_edfa(rng, f'amp ({src} → {dst})-{j}', varieties=amp_varieties))
                         info['junctions'].append('edfa:' + chain[-1]['_settings'])
                     else:
+                        after_fused = False
                         info['junctions'].append('none')
             # optional user-placed booster / preamp
             if user_amps and rng.random() < 0.3:
